@@ -7,15 +7,17 @@ package nfpm
 
 //@ import "github.com/goreleaser/nfpm/v2/files"
 //
-//@ spec func planOK(cs files.Contents) bool {
+//@ spec func SpecPlanOK(cs files.Contents, mtimeSet bool) bool {
 //@     return forall(0, len(cs), func(i int) bool {
-//@         return cs[i] != nil && fresh(cs[i]) && cs[i].FileInfo != nil && fresh(cs[i].FileInfo)
+//@         return cs[i] != nil && fresh(cs[i]) && allocated(cs[i]) &&
+//@             cs[i].FileInfo != nil && fresh(cs[i].FileInfo) && allocated(cs[i].FileInfo) &&
+//@             implies(mtimeSet, !cs[i].FileInfo.MTime.IsZero())
 //@     })
 //@ }
 //
 //@ func PrepareForPackager(info *Info, packager string) (err error)
 //@   requires info != nil
-//@   ensures [C11 C12 C01] plan-fresh: implies(err == nil, planOK(info.Contents))
+//@   ensures [C11 C12 C01] plan-fresh: implies(err == nil, SpecPlanOK(info.Contents, !old(info.MTime.IsZero())))
 //@   ensures [C06] loud: implies(err == nil, flag("failed") == old(flag("failed")))
 //@   ensures [C07] no-clock: implies(!old(info.MTime.IsZero()), flag("clockRead") == old(flag("clockRead")))
 //@   ensures [C07] no-env: flag("envRead") == old(flag("envRead"))
